@@ -18,6 +18,7 @@ CATALOGUE = {
     "swe": (False, 1, "width"), "sw": (False, 1, "width"), "gw": (False, 1, "width"), "goda": (False, 1, "stat"),
     "mss": (False, 1, "stat"), "mss_depth": (False, 1, "stat"), "oned": (False, 1, "stat"), "to_energy": (False, 1, "stat"),
     "celerity": (False, 1, "stat"), "wavelen": (False, 1, "stat"),
+    "hmax": (False, 1, "timestat"),  # uses the mean step of the whole time axis: per-spectrum, but not independent of the time coordinate
     "dm": (True, 1, "dir"), "dspr": (True, 1, "width"), "momd1": (True, 1, "stat"), "fdspr": (True, 1, "widthf"), "crsd": (True, 1, "stat"),
     "uss": (True, 1, "stat"), "uss_x": (True, 1, "stat"), "uss_y_depth": (True, 1, "stat"),
     "dp": (True, 1, "dp"),
@@ -32,7 +33,7 @@ CATALOGUE = {
     "ptm1": (True, 2, "watershed"), "ptm2": (True, 2, "watershed"), "ptm3": (True, 2, "watershed"), "ptm1_smooth": (True, 2, "watershed"),
 }
 
-STAT_NAMES = [k for k, v in CATALOGUE.items() if v[2] in ("stat", "width", "dir", "dp", "peak", "peakdir", "peakwidth", "widthf", "statsds")]
+STAT_NAMES = [k for k, v in CATALOGUE.items() if v[2] in ("stat", "timestat", "width", "dir", "dp", "peak", "peakdir", "peakwidth", "widthf", "statsds")]
 TRANSFORM_NAMES = [k for k, v in CATALOGUE.items() if v[2] == "transform"]
 SPLIT_NAMES = [k for k, v in CATALOGUE.items() if v[2] == "split"]
 WATERSHED_NAMES = [k for k, v in CATALOGUE.items() if v[2] == "watershed"]
@@ -79,7 +80,7 @@ def apply(spec, da, aux=None):
         return sp.hs()
     if op == "hs_notail":
         return sp.hs(tail=False)
-    if op in ("hrms", "tm01", "tm02", "swe", "sw", "gw", "goda", "oned", "to_energy", "celerity", "wavelen", "dm", "dspr", "dp", "fp", "alpha", "gamma", "dpm", "dpspr", "fdspr", "crsd", "uss", "uss_x", "mss"):
+    if op in ("hmax", "hrms", "tm01", "tm02", "swe", "sw", "gw", "goda", "oned", "to_energy", "celerity", "wavelen", "dm", "dspr", "dp", "fp", "alpha", "gamma", "dpm", "dpspr", "fdspr", "crsd", "uss", "uss_x", "mss"):
         return getattr(sp, op)()
     if op == "tp":
         return sp.tp()
